@@ -86,6 +86,26 @@ def check_case(case):
                 return r
         if r.fails or not judged:
             continue
+        # pass 1b: for quantified formulas, every declaration order of the problem's objects (the order in which a
+        # forall is unfolded is the iteration order of Problem.objects)
+        if "forall" in case.get("tags", []):
+            from itertools import permutations
+            names = list(pg.objects)
+            perms = list(permutations(names))[1:]
+            if case.get("orders", 1) <= 1:  # quick: reversal and one rotation; thorough: all
+                perms = [tuple(reversed(names)), tuple(names[1:] + names[:1])]
+            for perm in perms:
+                for st, s_val, p_val in judged:
+                    lib_st, prob = pg.lib_state(st, order=perm)
+                    got = guard(lambda: pg.op("a", args, prob).is_applicable(lib_st))
+                    r.count("transitions")
+                    r.count("object-orders")
+                    if judge(got, s_val, p_val, args, st, f"objects declared {perm}"):
+                        break
+                if r.fails:
+                    break
+            if r.fails:
+                continue
         # pass 2: operand orders.  One parse + one grounding per order, queried on every state;
         # a disagreement is confirmed in isolation (fresh objects, same schedule) before it counts.
         lib_states = [pg.lib_state(st) for st, _, _ in judged]
